@@ -11,14 +11,31 @@ size_t vf_len;
 #define VF_MAXLEN 22
 #endif
 
+char vf_in_str[VF_MAXLEN + 1];
+size_t vf_in_len;
 static int is_ws(char c) { return c == ' ' || c == '\t' || c == '\n' || c == '\r'; }
 
 void h_atoi_exact(void)
 {
-    char s[VF_MAXLEN + 1];
+    char *s = vf_in_str;
     size_t n;
     VF_ASSUME(n <= VF_MAXLEN);
+    for (size_t k = 0; k < VF_MAXLEN; k++) {
+        char c;
+        vf_in_str[k] = c; /* explicit input, shows up in the trace */
+    }
     s[n] = 0;
+    vf_in_len = n;
+#ifdef VF_PREFIX
+    /* boundary variant: the string starts with the first digits of 2^64 so
+     * that the symbolic tail explores both sides of the saturation limit */
+    {
+        const char pre[] = VF_PREFIX;
+        VF_ASSUME(n >= sizeof(pre) - 1);
+        for (size_t k = 0; k + 1 < sizeof(pre); k++)
+            s[k] = pre[k];
+    }
+#endif
     /* reference: one pass, phases 0 = blanks, 1 = signs, 2 = digits, 3 = done;
      * saturation decided by comparison with floor(UINT64_MAX / 10) and the
      * last digit, no multiplication involved in the test */
@@ -64,7 +81,12 @@ void h_atoi_exact(void)
         VF_ASSERT(v == (sat ? UINT64_MAX : acc), "exact decimal value or saturation");
     }
     VF_REACH("end of harness");
+#ifdef VF_PREFIX
     VF_COVER(have && sat, "saturating input");
-    VF_COVER(have && !sat && acc > 1000000000000ull, "large exact input");
+    VF_COVER(have && !sat && acc > 18446744073709000000ull, "exact input just below 2^64");
+    VF_COVER(have && !sat && acc == 18446744073709551615ull, "exactly UINT64_MAX without overflow");
+#else
+    VF_COVER(have && !sat && acc > 100000ull && neg, "large negative exact input");
     VF_COVER(!have && n > 2, "rejected input");
+#endif
 }
